@@ -92,6 +92,13 @@ def var_pairs(run, rng, n):
         ddof = rng.choice([0, 1])
         if func.startswith("nan"):
             vals[nrng.random(m) < 0.1] = np.nan
+        ikind = None
+        if rng.random() < 0.35:
+            # integer data of every width, magnitudes up to far beyond sqrt(2**63): the squares must not be formed in an integer type
+            ikind = rng.choice(["int64", "int64", "uint32", "int32", "int16", "uint64"])
+            scale = {"int64": rng.choice([1e3, 4e9, 1e12, 1e15]), "uint32": 1e9, "int32": 5e8, "int16": 8e3, "uint64": rng.choice([1e10, 1e15])}[ikind]
+            centre = 0.0 if ikind.startswith("int") else 3 * scale
+            vals = np.clip(np.rint(nrng.normal(centre, scale, size=m)), 0 if ikind.startswith("u") else -4 * scale, centre + 4 * scale).astype(ikind)
         chunks = G.random_composition(rng, m, 6)
         with warnings.catch_warnings():
             warnings.simplefilter("ignore")
@@ -103,11 +110,13 @@ def var_pairs(run, rng, n):
                     results[(method, eng)] = np.asarray(flox.groupby_reduce(da.from_array(vals, chunks=(chunks,)), labels, method=method, engine=eng, **kw)[0].compute())
             npf = getattr(np, func)
             ref = np.array([npf(vals[labels == g], ddof=ddof) if (labels == g).any() else np.nan for g in range(ng)])
-        run.count(f"var|{m}|{ng}|{func}|{ddof}|{chunks}", len(chunks) > 1)
+        run.count(f"var|{m}|{ng}|{func}|{ddof}|{chunks}|{ikind}", len(chunks) > 1)
+        hist = run.extra.setdefault("var_pairs_dtype_histogram", {})
+        hist[str(vals.dtype)] = hist.get(str(vals.dtype), 0) + 1
         for k, r in results.items():
             if not (np.allclose(r, e, rtol=1e-9, atol=1e-12, equal_nan=True) and np.allclose(r, ref, rtol=1e-9, atol=1e-12, equal_nan=True)):
                 run.violation({"property": "C20", "kind": "var/std eager vs chunked disagree beyond floating-point accuracy",
-                               "func": func, "ddof": ddof, "vals": vals.tolist(), "labels": labels.tolist(), "chunks": list(chunks),
+                               "func": func, "ddof": ddof, "vals": vals.tolist(), "dtype": str(vals.dtype), "labels": labels.tolist(), "chunks": list(chunks),
                                "plan": list(k), "chunked": r.tolist(), "eager": e.tolist(), "numpy": ref.tolist()}, tag="var")
                 break
     run.sample({"var_case": {"func": func, "ddof": ddof, "n": m, "chunks": list(chunks)}})
@@ -133,7 +142,7 @@ def run(run: C.Run):
         "(1) min/max/nanmin/nanmax on arrays mixing finite values, NaN and +-inf, every engine incl. the automatic choice, eager and "
         "map-reduce/cohorts/auto; (2) int8/uint8/int16/uint16/int32 arrays whose group totals exceed the input width (values at the "
         "dtype's extremes) for sum/nansum/prod/nanprod/mean/var/count/min/max on every engine and plan, vs NumPy (which accumulates in "
-        "the default platform integer); (3) var/std/nanvar/nanstd on normally distributed floats (|mean|/std <= 100): eager vs "
+        "the default platform integer); (3) var/std/nanvar/nanstd on normally distributed floats (|mean|/std <= 100) and on integer data of every width with magnitudes up to 1e15 (squares beyond int64): eager vs "
         "chunked (2 methods x 2 engines) vs NumPy within rtol 1e-9; non-trivial = +-inf/NaN present or a narrow integer dtype")
 
 
